@@ -85,7 +85,9 @@ def main(argv=None):
                     if q == pid and rec[key]["exit"] == 0 and not a.no_thorough:
                         rec["thorough"] = run_check(q, "thorough", patched)
                 rec["caught_by"] = ("quick" if rec["quick"]["exit"] == 1 else
-                                    ("thorough" if rec.get("thorough", {}).get("exit") == 1 else "MISSED"))
+                                    ("thorough" if rec.get("thorough", {}).get("exit") == 1 else
+                                     ("HARNESS-ERROR(exit 2)" if 2 in (rec["quick"]["exit"], rec.get("thorough", {}).get("exit"))
+                                      else "MISSED")))
         finally:
             shutil.rmtree(clean, ignore_errors=True)
             shutil.rmtree(patched, ignore_errors=True)
